@@ -548,7 +548,7 @@ PROPS = {
     "C01": dict(fams=[("core", 3), ("crash", 2), ("snap", 2)], corpus=["core", "crash", "snap"], mc="MC_core3", mc_deep="MC_core3_deep", gen=[("Gen_core3", ["a", "b", "c"], 40)]),
     "C02": dict(fams=[("core", 3), ("crash", 2)], corpus=["core", "crash"], mc="MC_core3", mc_deep="MC_core3_deep", gen=[("Gen_core3", ["a", "b", "c"], 40), ("Gen_async3", ["a", "b", "c"], 45)]),
     "C03": dict(fams=[("core", 3), ("crash", 1), ("snap", 2)], corpus=["core", "snap", "api"], mc="MC_core3", mc_deep="MC_core3_deep", gen=[("Gen_core3", ["a", "b", "c"], 40)]),
-    "C04": dict(fams=[("crash", 5)], corpus=["crash"], mc="MC_crash3", mc_deep="MC_crash3_deep"),
+    "C04": dict(fams=[("crash", 5)], corpus=["crash", "core"], mc="MC_crash3", mc_deep="MC_crash3_deep"),
     "C05": dict(fams=[("reads", 5)], corpus=["reads"], mc="MC_reads3", mc_deep="MC_reads3_deep", gen=[("Gen_async3", ["a", "b", "c"], 45)]),
     "C06": dict(fams=[("core", 3), ("crash", 2)], corpus=["core", "crash"], mc="MC_core3", mc_deep="MC_core3_deep", gen=[("Gen_core3", ["a", "b", "c"], 40)], hae=True),
     "C07": dict(fams=[("core", 3), ("crash", 2)], corpus=["core", "crash"], mc="MC_core3", mc_deep="MC_core3_deep", gen=[("Gen_core3", ["a", "b", "c"], 40)]),
